@@ -180,7 +180,8 @@ def rule_jr(repo):
             res.add(Finding('C05.JR', g0, msg, construct='%s %s' % (kind, msg[:100])))
     f = repo.func(LT, 'SO3Type.Jr')
     rets = returns_of(f.node)
-    ok = len(rets) == 1 and src(rets[0].value).replace(' ', '') == 'X.Log().Jr()'
+    from ..expr import rv as _rv
+    ok = len(rets) == 1 and src(_rv(f.node, rets[0])).replace(' ', '') == 'X.Log().Jr()'
     res.inst({'function': f.fq, 'delegates_to_Log_Jr': ok}, f.fq)
     if not ok:
         res.add(Finding('C05.JR', f, 'SO3Type.Jr must be the so3 Jr of Log(X)', construct='SO3 Jr'))
